@@ -606,6 +606,7 @@ impl Sys for CrashSys {
         }
 
         // --- crash images at every event boundary of this operation
+        let mut after_flush: Option<(FileModel, FileModel)> = None;
         if let Some((mut d, mut r)) = pre {
             let s_begin = flush_kind.then_some(&s_begin_snap);
             let mut in_sync: Option<FileKind> = None;
@@ -669,9 +670,14 @@ impl Sys for CrashSys {
                     DurEv::Punch { off, len } => d.punch(*off, *len),
                 }
             }
-            let mut v = Vec::new();
-            self.crash_point(&d, &r, None, s_begin, kind, "after_call", &mut v);
-            viols.append(&mut v);
+            if ok && flush_kind {
+                // judged below, once the flush counts as completed
+                after_flush = Some((d, r));
+            } else {
+                let mut v = Vec::new();
+                self.crash_point(&d, &r, None, s_begin, kind, "after_call", &mut v);
+                viols.append(&mut v);
+            }
         }
         for e in &evs {
             self.absorb(e);
@@ -710,8 +716,12 @@ impl Sys for CrashSys {
                 // part 2 needs some completed flush to refer to
             }
         }
-        if matches!(op, RawOp::Reopen) && ok {
-            // the reopen re-created mappings: nothing changes in the files
+        // a crash right after a flush-kind call has returned: the call is complete, so what it
+        // flushed must be there — including regions that were overwritten in place before it
+        if let Some((d, r)) = after_flush {
+            let mut v = Vec::new();
+            self.crash_point(&d, &r, None, None, kind, "after_call", &mut v);
+            viols.append(&mut v);
         }
         // dedupe violations per signature
         let mut seen = HashSet::new();
